@@ -363,11 +363,78 @@ pub mod verif_facade {
     pub fn clear(&mut self) {
       self.items.clear()
     }
-    pub fn iter(&self) -> impl Iterator<Item = (&K, &V)> {
-      self.items.iter().map(|(k, v)| (k, v))
+    // concrete iterator types (like std's Iter / Keys / Values they have no destructor, so a borrow of a lock guard
+    // may end in the same expression)
+    pub fn iter(&self) -> std::iter::Map<std::slice::Iter<'_, (K, V)>, fn(&(K, V)) -> (&K, &V)> {
+      fn split<K, V>(p: &(K, V)) -> (&K, &V) {
+        (&p.0, &p.1)
+      }
+      self.items.iter().map(split as fn(&(K, V)) -> (&K, &V))
     }
-    pub fn values(&self) -> impl Iterator<Item = &V> {
-      self.items.iter().map(|(_, v)| v)
+    pub fn values(&self) -> std::iter::Map<std::slice::Iter<'_, (K, V)>, fn(&(K, V)) -> &V> {
+      fn snd<K, V>(p: &(K, V)) -> &V {
+        &p.1
+      }
+      self.items.iter().map(snd as fn(&(K, V)) -> &V)
+    }
+    pub fn keys(&self) -> std::iter::Map<std::slice::Iter<'_, (K, V)>, fn(&(K, V)) -> &K> {
+      fn fst<K, V>(p: &(K, V)) -> &K {
+        &p.0
+      }
+      self.items.iter().map(fst as fn(&(K, V)) -> &K)
+    }
+    pub fn values_mut(&mut self) -> impl Iterator<Item = &mut V> {
+      self.items.iter_mut().map(|(_, v)| v)
+    }
+    pub fn iter_mut(&mut self) -> impl Iterator<Item = (&K, &mut V)> {
+      self.items.iter_mut().map(|(k, v)| (&*k, v))
+    }
+    pub fn get_mut(&mut self, k: &K) -> Option<&mut V> {
+      self.items.iter_mut().find(|(kk, _)| kk == k).map(|(_, v)| v)
+    }
+    pub fn remove_entry(&mut self, k: &K) -> Option<(K, V)> {
+      if let Some(p) = self.items.iter().position(|(kk, _)| kk == k) {
+        Some(self.items.remove(p))
+      } else {
+        None
+      }
+    }
+    pub fn retain<F: FnMut(&K, &mut V) -> bool>(&mut self, mut f: F) {
+      self.items.retain_mut(|(k, v)| f(k, v))
+    }
+    pub fn drain(&mut self) -> std::vec::Drain<'_, (K, V)> {
+      self.items.drain(..)
+    }
+    pub fn with_capacity(_n: usize) -> HashMap<K, V> {
+      HashMap { items: Vec::new() }
+    }
+    pub fn into_values(self) -> impl Iterator<Item = V> {
+      self.items.into_iter().map(|(_, v)| v)
+    }
+    pub fn into_keys(self) -> impl Iterator<Item = K> {
+      self.items.into_iter().map(|(k, _)| k)
+    }
+  }
+  impl<K: Eq, V> Default for HashMap<K, V> {
+    fn default() -> Self {
+      HashMap::new()
+    }
+  }
+  impl<K, V> IntoIterator for HashMap<K, V> {
+    type Item = (K, V);
+    type IntoIter = std::vec::IntoIter<(K, V)>;
+    fn into_iter(self) -> Self::IntoIter {
+      self.items.into_iter()
+    }
+  }
+  impl<'a, K, V> IntoIterator for &'a HashMap<K, V> {
+    type Item = (&'a K, &'a V);
+    type IntoIter = std::iter::Map<std::slice::Iter<'a, (K, V)>, fn(&'a (K, V)) -> (&'a K, &'a V)>;
+    fn into_iter(self) -> Self::IntoIter {
+      fn split<'b, K, V>(p: &'b (K, V)) -> (&'b K, &'b V) {
+        (&p.0, &p.1)
+      }
+      self.items.iter().map(split as fn(&'a (K, V)) -> (&'a K, &'a V))
     }
   }
 }
